@@ -836,10 +836,18 @@ mk_h!(root_mkdir_all_partial_other_error, 2);
 mk_h!(root_mkdir_all_resolver_error, 3);
 
 #[kani::proof]
-#[kani::unwind(6)]
+#[kani::unwind(10)]
 #[kani::stub(crate::resolvers::Resolver::resolve_partial, k_resolve_partial)]
+#[kani::stub(crate::handle::Handle::reopen, crate::handle::Handle::k_handle_reopen)]
+#[kani::stub(<std::os::unix::io::BorrowedFd<'static> as crate::utils::FdExt>::as_unsafe_path_unchecked, k_unsafe_path_unchecked)]
+#[kani::stub(crate::syscalls::mkdirat, k_mkdirat)]
+#[kani::stub(crate::syscalls::openat_follow, k_openat_follow)]
+#[kani::stub(mc::memchr::memchr, k_memchr)]
+#[kani::stub(mc::memchr::memrchr, k_memrchr)]
 #[kani::stub(alloc::fmt::format, k_format)]
 fn root_mkdir_all_bad_mode() {
+    // (the resolver stub answers "Err" so that nothing past the mode check is explored deeply)
+    crate::verif_kani::kernel::scratch_set(3, 0, 0, 0);
     let (_rootfd, root) = setup();
     let mode: u32 = kani::any();
     kani::assume(mode & !0o1777 != 0);
